@@ -135,3 +135,37 @@ package ast
 //@   loop 0: invariant ptrlo(sp) + pos <= ptrindex(sp) && ptrindex(sp) <= ptrhi(sp) && ptrhi(sp) == ptrlo(sp) + len(src)
 //@   loop 0: invariant forall k int :: (pos <= k && k < ptrindex(sp) - ptrlo(sp)) ==> utils.isSp(src[k])
 //@   loop 0: decreases ptrhi(sp) - ptrindex(sp)
+
+// ---- linkedPairs: the member storage of object nodes (C14: Get finds the FIRST pair
+// with the key, whether or not the hash index has been built; C15).
+//@ pure func lpAt(lp *linkedPairs, i int) Pair = ite(i < 16, lp.head[i], (*lp.tail[i / 16 - 1])[i % 16])
+//@ pure func lpWF(lp *linkedPairs) bool = lp != nil && 0 <= lp.size && lp.size <= (len(lp.tail) + 1) * 16 && len(lp.tail) <= 8796093022208 && (forall a int :: (0 <= a && a < len(lp.tail) && (a + 1) * 16 < lp.size) ==> lp.tail[a] != nil)
+// every stored pair carries the hash of its key
+//@ pure func lpHashed(lp *linkedPairs) bool = forall j int :: (0 <= j && j < lp.size) ==> lpAt(lp, j).hash == caching.strHash(txt(lpAt(lp, j).Key))
+// the index, when present, maps the hash of every stored pair to the FIRST slot holding that hash
+//@ pure func lpIndexed(lp *linkedPairs) bool = lp.index != nil ==> ((forall h uint64 :: has(lp.index, h) ==> (0 <= lp.index[h] && lp.index[h] < lp.size)) && (forall j int :: (0 <= j && j < lp.size) ==> (has(lp.index, lpAt(lp, j).hash) && 0 <= lp.index[lpAt(lp, j).hash] && lp.index[lpAt(lp, j).hash] <= j && lpAt(lp, lp.index[lpAt(lp, j).hash]).hash == lpAt(lp, j).hash)))
+
+//@ func (*linkedPairs).At props C14,C15
+//@   requires self == nil || lpWF(self)
+//@   ensures (self == nil || i < 0 || i >= self.size) ==> result == nil
+//@   ensures (self != nil && 0 <= i && i < self.size) ==> (result != nil && same(*result, lpAt(self, i)))
+
+// BuildIndex: afterwards the index exists and points every hash at its first slot.
+//@ func (*linkedPairs).BuildIndex props C14,C15
+//@   requires lpWF(self) && self.size <= 70368744177664 && lpIndexed(self)
+//@   modifies self.index, self.index[_]
+//@   ensures self.index != nil && lpIndexed(self) && lpWF(self)
+//@   loop 0: invariant 0 <= i && i <= self.size && self.index != nil && lpWF(self) && same(self.size, pre(self.size))
+//@   loop 0: invariant forall h uint64 :: has(self.index, h) ==> (0 <= self.index[h] && self.index[h] < self.size)
+//@   loop 0: invariant forall j int :: (0 <= j && j < i) ==> (has(self.index, lpAt(self, j).hash) && 0 <= self.index[lpAt(self, j).hash] && self.index[lpAt(self, j).hash] <= j && lpAt(self, self.index[lpAt(self, j).hash]).hash == lpAt(self, j).hash)
+//@   loop 0: decreases self.size - i
+
+// Get: the first pair whose key equals key, with its position; (nil, -1) iff there is none.
+//@ func (*linkedPairs).Get props C14,C15
+//@   requires lpWF(self) && lpHashed(self) && lpIndexed(self)
+//@   ensures r1 >= 0 ==> (r1 < self.size && r0 != nil && txt(lpAt(self, r1).Key) == txt(key) && same(*r0, lpAt(self, r1)))
+//@   ensures r1 >= 0 ==> (forall j int :: (0 <= j && j < r1) ==> txt(lpAt(self, j).Key) != txt(key))
+//@   ensures r1 < 0 ==> (r1 == -1 && r0 == nil && (forall j int :: (0 <= j && j < self.size) ==> txt(lpAt(self, j).Key) != txt(key)))
+//@   loop 0: invariant 0 <= i && i <= self.size
+//@   loop 0: invariant forall j int :: (0 <= j && j < i) ==> txt(lpAt(self, j).Key) != txt(key)
+//@   loop 0: decreases self.size - i
